@@ -104,7 +104,10 @@ class Gen:
                 yield from self.paths(f"{n}[{i}]", et, depth - 1)
         if isinstance(t, tuple) and t[0] == "dict":
             for k, et in t[1].items():
-                p = f"{n}.{k}" if self.rng.random() < 0.5 else f"{n}['{k}']"
+                if isinstance(k, int):
+                    p = f"{n}[{k}]"
+                else:
+                    p = f"{n}.{k}" if self.rng.random() < 0.5 else f"{n}['{k}']"
                 yield from self.paths(p, et, depth - 1)
 
     def expr(self, T, env, d):
@@ -172,7 +175,8 @@ class Gen:
                   ("tup", [("tup", ["int", "int"]), ("tup", ["int", "int"])]),
                   ("tup", [("tup", [("seq", ("rec", "jet")), "int"]),
                            ("tup", [("seq", ("rec", "jet")), "int"])]),
-                  ("dict", {"a": ("tup", ["int", "int"]), "b": "int"})]
+                  ("dict", {"a": ("tup", ["int", "int"]), "b": "int"}),
+                  ("dict", {"n": "int", 0: "int"}), ("dict", {1: "int", 0: ("rec", "jet")})]
         return self.rng.choice(c)
 
     def build(self, o, T, env, d, cands):
@@ -221,7 +225,15 @@ class Gen:
             me, other = E(T), E("int")
             if None in (me, other):
                 return None
-            return "{'p': %s, 'q': %s}%s" % (me, other, r.choice([".p", "['p']"]))
+            how = r.random()
+            if how < 0.7:
+                return "{'p': %s, 'q': %s}%s" % (me, other, r.choice([".p", "['p']"]))
+            if how < 0.8:  # integer keys, and string and integer keys mixed in either order
+                return "{1: %s, 0: %s}[0]" % (other, me)
+            if how < 0.9:
+                return "{'p': %s, 0: %s}[0]" % (other, me)
+            return "{0: %s, 'p': %s, 1: %s}[%s]" % (me, other, other, r.choice(["0", "0", "'p'"])) \
+                if T == "int" else "{0: %s, 'p': %s}[0]" % (me, other)
         if o == "count":
             s = self.expr(("seq", self.anyT(True)), env, d - 1)
             return None if s is None else (f"Count({s})" if r.random() < 0.6 else f"{s}.Count()")
@@ -320,7 +332,7 @@ class Gen:
             es = {k: E(t) for k, t in T[1].items()}
             if None in es.values():
                 return None
-            return "{" + ", ".join(f"'{k}': {v}" for k, v in es.items()) + "}"
+            return "{" + ", ".join(f"{k!r}: {v}" for k, v in es.items()) + "}"
         elT = T[1]
         form = r.choice(["f", "m"])
 
